@@ -637,3 +637,53 @@ func FuzzC10Server(f *testing.F) {
 		}
 	})
 }
+
+// FuzzC10Client: coverage-guided frames from a fake server against an in-process library client
+// (with a reverse handler and a live subscription); a crash of the fuzz worker is the finding.
+func FuzzC10Client(f *testing.F) {
+	for _, s := range []string{
+		`{"jsonrpc":"2.0","method":"xrpc.ch.val","params":[1,{"tok":"x","seq":0}]}`, `{"jsonrpc":"2.0","method":"xrpc.ch.close","params":[1]}`, `{"jsonrpc":"2.0","method":"xrpc.cancel","params":[1]}`,
+		`{"jsonrpc":"2.0","id":1,"result":1}`, `{"jsonrpc":"2.0","id":7,"method":"Rev.Ident","params":["t"]}`, `{"jsonrpc":"2.0","id":"x","error":{"code":-1111111,"message":"m"}}`,
+	} {
+		f.Add([]byte(s), false)
+	}
+	fake := newFakeServer()
+	var cl TokClient
+	closer, err := jsonrpc.NewMergeClient(context.Background(), "ws://"+fake.srv.Listener.Addr().String(), "Tok", []interface{}{&cl}, nil,
+		jsonrpc.WithClientHandler("Rev", &RevHandler{ID: "fz"}), jsonrpc.WithReconnectBackoff(2*time.Millisecond, 10*time.Millisecond))
+	if err != nil {
+		f.Skip()
+	}
+	_ = closer
+	go func() {
+		if ch, err := cl.Sub(context.Background(), "fz-sub", Plan{}); err == nil {
+			for range ch {
+			}
+		}
+	}()
+	n := 0
+	f.Fuzz(func(t *testing.T, frame []byte, binary bool) {
+		n++
+		if err := fake.inject(hostileFrame{Text: string(frame), Binary: binary}); err != nil {
+			time.Sleep(5 * time.Millisecond) // reconnecting
+		}
+		tok := fmt.Sprintf("fz%d", n)
+		ok := false
+		var last error
+		for try := 0; try < 3 && !ok; try++ {
+			a := goCall(func() (Result, error) { return cl.Call(context.Background(), tok, Plan{}) })
+			if !a.wait(2 * time.Second) {
+				last = fmt.Errorf("no answer within 2s")
+				continue
+			}
+			// a forged response carrying the id of this very call is the peer's privilege
+			if a.err == nil || strings.Contains(a.err.Error(), "didn't match") {
+				ok = true
+			}
+			last = a.err
+		}
+		if !ok {
+			t.Fatalf("VERIF-VIOLATION property=C10 key=client-wedged replay=- msg=valid calls keep failing after frame %q: %v", frame, last)
+		}
+	})
+}
